@@ -102,7 +102,7 @@ pub fn gen_cases(seed: u64, n: usize, _thorough: bool) -> Vec<String> {
         }
     }
     for name in crate::c14::program_names() { out.push(format!("S c14:{}", name)); }
-    for name in ["names", "groups", "globals", "templates"] { out.push(format!("S c07:{}", name)); }
+    for name in ["names", "groups", "globals", "templates", "literals", "positions"] { out.push(format!("S c07:{}", name)); }
     for _ in 0..(4 * n) { out.push(format!("S gen:{}:{}", rng.below(1 << 40), rng.range(4, 24))); }
     // names the exporter has to change: every reserved name in every declaration position (a sample per run, all of
     // them in the thorough tier), symbols of one scope that want the same name, shadowing names across namespaces
